@@ -76,7 +76,7 @@ EdgesBigC(e) == LET N == Pow2(e.d)
            outer cell is not the opposite one) *)
         <<"external", e.ee_len = 4 * M + Cardinality({d \in Cardinals : NeighAt(N, c, d) # {}}) /\ e.ee_dup = 0 /\ e.ees_ok = 1>>,
         <<"sides", \A o \in Ordinals : e.side_len[o] = M /\ \A k \in 1..Len(e.side_s[o]) :
-                      LET x == e.side_s[o][k] IN ~IsDesc(c, M, x) /\ \E w \in MainWinds : \E y \in NeighAt(N * M, x, w) :
+                      LET x == e.side_s[o][k] IN InRange(N * M, x) /\ ~IsDesc(c, M, x) /\ \E w \in MainWinds : \E y \in NeighAt(N * M, x, w) :
                                                      OnSide(c, M, o, y) /\ x \in NeighAt(N * M, y, o)>>,
         <<"corners", \A d \in Cardinals : ToSet(e.corner[d]) = ExternalCorner(N, c, M, d)>>,
         <<"internal_corner", \A d \in Cardinals : e.icorner[d] = InternalCorner(c, M, d)>> >>
